@@ -95,7 +95,7 @@ func (x *Explorer) doCallVals(st *State, f *Frame, ins ssa.Instruction, c *ssa.C
 				return
 			}
 			key := "invoke " + strings.Join(keys, "|")
-			x.havocCall(st, f, key, sig, res, isDefer)
+			x.havocCallObs(st, f, key, c.Method.Name(), site, sig, res, isDefer, allArgs)
 			return
 		}
 	} else {
